@@ -10,9 +10,11 @@ def run(i):
     meta=json.load(open(os.path.join(HERE,'seeded',i,'meta.json')))
     if meta.get('neutralised_by'):
         return i,'SELFTEST %s: NEUTRALISED by a repair of /repo (see meta.json)'%i
-    r=subprocess.run([os.path.join(HERE,'tools','selftest.sh'),i],capture_output=True,text=True)
+    r=subprocess.run([os.path.join(HERE,'tools','selftest.sh'),i],capture_output=True,text=True,errors='replace')
     line=[l for l in r.stdout.splitlines() if l.startswith('SELFTEST')]
-    return i,(line[-1] if line else 'SELFTEST %s: ? %s'%(i,r.stdout[-200:]))
+    out=(line[-1] if line else 'SELFTEST %s: ? %s'%(i,r.stdout[-200:]))
+    with open(os.environ.get('SEEDED_TABLE_LOG','/dev/shm/seeded_table.progress.log'),'a') as f: f.write(out[:400]+'\n')
+    return i,out
 with ThreadPoolExecutor(max_workers=int(sys.argv[1]) if len(sys.argv)>1 else 3) as ex:
     res=dict(ex.map(run,ids))
 rows=[]
